@@ -79,6 +79,15 @@ static void product_check(vf::Ctx& ctx, const std::string& inst, int n, const DM
     const VecCLD want = FL * x.template cast<CLD>();
     const LD err = fnorm(VecCLD(y1.template cast<CLD>() - want)), allow = C * n * u * fnorm(FL) * fnorm(x.template cast<CLD>());
     if (!within(ctx, "product", err, allow)) viol(ctx, inst, "perform_op-not-A*x", n, err, allow);
+    with_presentations(P1, [&](const auto& ref, const char* pres) {
+        Op o(ref);
+        DVec<S> y(n);
+        o.perform_op(x.data(), y.data());
+        ctx.count(std::string("presentation/") + pres);
+        if (o.rows() != n || o.cols() != n) viol(ctx, inst, (std::string("rows/cols/") + pres).c_str(), n, (LD) o.rows(), (LD) n);
+        const LD e = fnorm(VecCLD(y.template cast<CLD>() - want));
+        if (!within(ctx, "product", e, allow)) viol(ctx, inst, (std::string("perform_op-not-A*x/") + pres).c_str(), n, e, allow);
+    });
     if (has_matops)
     {
         // operator* (matrix-matrix) and operator() are real-scalar members (used by the Davidson solver)
@@ -140,27 +149,6 @@ static void reg_sym_family()
         product_check<T, Op>(ctx, inst, n, F, [&](int p) { return dense_from<T, Flags>(F, Uplo, p, r); }, false, Uplo);
         PM P1 = dense_from<T, Flags>(F, Uplo, 1, r), P2 = dense_from<T, Flags>(F, Uplo, 2, r);
         matops_check<T, Op>(ctx, inst, n, F, P1, P2, Uplo);
-        // presented as a Map, as a block of a larger matrix and as an expression (the wrapper then owns a temporary)
-        {
-            std::vector<T> buf((size_t) n * n);
-            Eigen::Map<PM> mp(buf.data(), n, n);
-            mp = P1;
-            Op om(mp);
-            PM big = PM::Constant(n + 3, n + 2, T(7));
-            big.block(2, 1, n, n) = P1;
-            Op ob(big.block(2, 1, n, n));
-            PM Z = PM::Zero(n, n);
-            Op oe(P1 + Z);
-            const DVec<T> x = rvec<T>(r, n);
-            DVec<T> y0(n), y1(n), y2(n), y3(n);
-            Op o0(P1);
-            o0.perform_op(x.data(), y0.data()); om.perform_op(x.data(), y1.data()); ob.perform_op(x.data(), y2.data()); oe.perform_op(x.data(), y3.data());
-            const LD allow = C * n * unit<T>() * fnorm(F.template cast<CLD>()) * fnorm(x.template cast<CLD>());
-            if (!within(ctx, "product", fnorm(VecCLD((y1 - y0).template cast<CLD>())), allow)) viol(ctx, inst, "map-differs", n, 0, 0);
-            if (!within(ctx, "product", fnorm(VecCLD((y2 - y0).template cast<CLD>())), allow)) viol(ctx, inst, "block-differs", n, 0, 0);
-            if (!within(ctx, "product", fnorm(VecCLD((y3 - y0).template cast<CLD>())), allow)) viol(ctx, inst, "expression-differs", n, 0, 0);
-            ctx.count("presentations", 3);
-        }
     }});
     // --- DenseHermMatProd (complex)
     g_inst.push_back({"DenseHermMatProd<" + c + ">", [](vf::Ctx& ctx, int n) {
@@ -186,6 +174,14 @@ static void reg_sym_family()
         if (bytes_of(y1) != bytes_of(y2)) viol(ctx, inst, "other-triangle-changes-perform_op", n, 0, 0);
         solve_judge<T>(ctx, inst, "perform_op-not-inv(A-sigma*I)*x", n, Fs, x, y1);
         ctx.count("applications", 2);
+        with_presentations(P1, [&](const auto& ref, const char* pres) {
+            Spectra::DenseSymShiftSolve<T, Uplo, Flags> o(ref);
+            o.set_shift(sigma);
+            DVec<T> y(n);
+            o.perform_op(x.data(), y.data());
+            ctx.count(std::string("presentation/") + pres);
+            solve_judge<T>(ctx, inst, (std::string("perform_op-not-inv(A-sigma*I)*x/") + pres).c_str(), n, Fs, x, y);
+        });
     }});
     // --- DenseCholesky
     g_inst.push_back({"DenseCholesky<" + c + ">", [](vf::Ctx& ctx, int n) {
@@ -209,6 +205,15 @@ static void reg_sym_family()
         if (!within(ctx, "cholesky-quadratic-form", std::abs(q1 - q2), C * n * unit<T>() * cond2<T>(F) * std::abs(q2))) viol(ctx, inst, "lower_triangular_solve-not-inv(L)", n, std::abs(q1 - q2), 0);
         ctx.count("applications", 3);
         (void) z;
+        with_presentations(P1, [&](const auto& ref, const char* pres) {
+            Spectra::DenseCholesky<T, Uplo, Flags> o(ref);
+            ctx.count(std::string("presentation/") + pres);
+            if (o.info() != Spectra::CompInfo::Successful) { viol(ctx, inst, (std::string("info-not-Successful-for-SPD/") + pres).c_str(), n, 0, 0); return; }
+            DVec<T> a(n), b(n);
+            o.lower_triangular_solve(x.data(), a.data());
+            o.upper_triangular_solve(a.data(), b.data());
+            solve_judge<T>(ctx, inst, (std::string("inv(L')inv(L)x-not-inv(B)x/") + pres).c_str(), n, F.template cast<CLD>(), x, b, cond2<T>(F));
+        });
     }});
 }
 
@@ -254,6 +259,14 @@ static void reg_sparse_sym_family(const char* siname)
         if (bytes_of(y1) != bytes_of(y2)) viol(ctx, inst, "other-triangle-changes-perform_op", n, 0, 0);
         solve_judge<T>(ctx, inst, "perform_op-not-inv(A-sigma*I)*x", n, Fs, x, y1);
         ctx.count("applications", 2);
+        with_presentations(P1, [&](const auto& ref, const char* pres) {
+            Spectra::SparseSymShiftSolve<T, Uplo, Flags, SI> o(ref);
+            o.set_shift(sigma);
+            DVec<T> y(n);
+            o.perform_op(x.data(), y.data());
+            ctx.count(std::string("presentation/") + pres);
+            solve_judge<T>(ctx, inst, (std::string("perform_op-not-inv(A-sigma*I)*x/") + pres).c_str(), n, Fs, x, y);
+        });
     }});
     g_inst.push_back({"SparseCholesky<" + c + ">", [c](vf::Ctx& ctx, int n) {
         auto& r = ctx.rng;
@@ -273,6 +286,15 @@ static void reg_sparse_sym_family(const char* siname)
         const LD q2 = std::real(x.template cast<CLD>().dot(bx));
         if (!within(ctx, "cholesky-quadratic-form", std::abs(q1 - q2), C * n * unit<T>() * cond2<T>(F) * std::abs(q2))) viol(ctx, inst, "lower_triangular_solve-not-inv(L)", n, std::abs(q1 - q2), 0);
         ctx.count("applications", 3);
+        with_presentations(P1, [&](const auto& ref, const char* pres) {
+            Spectra::SparseCholesky<T, Uplo, Flags, SI> o(ref);
+            ctx.count(std::string("presentation/") + pres);
+            if (o.info() != Spectra::CompInfo::Successful) { viol(ctx, inst, (std::string("info-not-Successful-for-SPD/") + pres).c_str(), n, 0, 0); return; }
+            DVec<T> a(n), b(n);
+            o.lower_triangular_solve(x.data(), a.data());
+            o.upper_triangular_solve(a.data(), b.data());
+            solve_judge<T>(ctx, inst, (std::string("inv(L')inv(L)x-not-inv(B)x/") + pres).c_str(), n, F.template cast<CLD>(), x, b, cond2<T>(F));
+        });
     }});
     g_inst.push_back({"SparseRegularInverse<" + c + ">", [c](vf::Ctx& ctx, int n) {
         auto& r = ctx.rng;
@@ -295,6 +317,16 @@ static void reg_sparse_sym_family(const char* siname)
         if (bytes_of(s1) != bytes_of(s2)) viol(ctx, inst, "other-triangle-changes-solve", n, 0, 0);
         // iterative solver: residual at the level of its tolerance (eps) times the conditioning
         solve_judge<T>(ctx, inst, "solve-not-inv(B)*x", n, FL, x, s1, 10 * cond2<T>(F));
+        with_presentations(P1, [&](const auto& ref, const char* pres) {
+            Spectra::SparseRegularInverse<T, Uplo, Flags, SI> o(ref);
+            ctx.count(std::string("presentation/") + pres);
+            DVec<T> y(n), sv(n);
+            o.perform_op(x.data(), y.data());
+            const LD e = fnorm(VecCLD(y.template cast<CLD>() - FL * x.template cast<CLD>()));
+            if (!within(ctx, "product", e, pa)) viol(ctx, inst, (std::string("perform_op-not-B*x/") + pres).c_str(), n, e, pa);
+            try { o.solve(x.data(), sv.data()); } catch (const std::runtime_error&) { viol(ctx, inst, (std::string("solve-gave-up-on-well-conditioned-B/") + pres).c_str(), n, 0, 0); return; }
+            solve_judge<T>(ctx, inst, (std::string("solve-not-inv(B)*x/") + pres).c_str(), n, FL, x, sv, 10 * cond2<T>(F));
+        });
     }});
 }
 
@@ -327,6 +359,14 @@ static void reg_gen_family()
         op.perform_op(x.data(), y.data());
         solve_judge<T>(ctx, inst, "perform_op-not-inv(A-sigma*I)*x", n, Fs, x, y);
         ctx.count("applications");
+        with_presentations(P, [&](const auto& ref, const char* pres) {
+            Spectra::DenseGenRealShiftSolve<T, Flags> o(ref);
+            o.set_shift(sigma);
+            DVec<T> yp(n);
+            o.perform_op(x.data(), yp.data());
+            ctx.count(std::string("presentation/") + pres);
+            solve_judge<T>(ctx, inst, (std::string("perform_op-not-inv(A-sigma*I)*x/") + pres).c_str(), n, Fs, x, yp);
+        });
     }});
     g_inst.push_back({"DenseGenComplexShiftSolve<" + c + ">", [c](vf::Ctx& ctx, int n) {
         auto& r = ctx.rng;
@@ -348,6 +388,15 @@ static void reg_gen_family()
         const LD err = fnorm(VecCLD(y.template cast<CLD>() - VecCLD(z.real().template cast<CLD>()))), allow = C * n * unit<T>() * kap * fnorm(z);
         if (!within(ctx, "complex-shift-forward", err, allow)) viol(ctx, inst, "perform_op-not-Re[inv(A-sigma*I)*x]", n, err, allow);
         ctx.count("applications");
+        with_presentations(P, [&](const auto& ref, const char* pres) {
+            Spectra::DenseGenComplexShiftSolve<T, Flags> o(ref);
+            o.set_shift(sr, si);
+            DVec<T> yp(n);
+            o.perform_op(x.data(), yp.data());
+            ctx.count(std::string("presentation/") + pres);
+            const LD e = fnorm(VecCLD(yp.template cast<CLD>() - VecCLD(z.real().template cast<CLD>())));
+            if (!within(ctx, "complex-shift-forward", e, allow)) viol(ctx, inst, (std::string("perform_op-not-Re[inv(A-sigma*I)*x]/") + pres).c_str(), n, e, allow);
+        });
     }});
 }
 template <int Flags, class SI>
@@ -379,6 +428,14 @@ static void reg_sparse_gen_family(const char* siname)
         op.perform_op(x.data(), y.data());
         solve_judge<T>(ctx, inst, "perform_op-not-inv(A-sigma*I)*x", n, Fs, x, y);
         ctx.count("applications");
+        with_presentations(P, [&](const auto& ref, const char* pres) {
+            Spectra::SparseGenRealShiftSolve<T, Flags, SI> o(ref);
+            o.set_shift(sigma);
+            DVec<T> yp(n);
+            o.perform_op(x.data(), yp.data());
+            ctx.count(std::string("presentation/") + pres);
+            solve_judge<T>(ctx, inst, (std::string("perform_op-not-inv(A-sigma*I)*x/") + pres).c_str(), n, Fs, x, yp);
+        });
     }});
     g_inst.push_back({"SparseGenComplexShiftSolve<" + c + ">", [c](vf::Ctx& ctx, int n) {
         auto& r = ctx.rng;
@@ -399,6 +456,15 @@ static void reg_sparse_gen_family(const char* siname)
         const LD err = fnorm(VecCLD(y.template cast<CLD>() - VecCLD(z.real().template cast<CLD>()))), allow = C * n * unit<T>() * kap * fnorm(z);
         if (!within(ctx, "complex-shift-forward", err, allow)) viol(ctx, inst, "perform_op-not-Re[inv(A-sigma*I)*x]", n, err, allow);
         ctx.count("applications");
+        with_presentations(P, [&](const auto& ref, const char* pres) {
+            Spectra::SparseGenComplexShiftSolve<T, Flags, SI> o(ref);
+            o.set_shift(sr, si);
+            DVec<T> yp(n);
+            o.perform_op(x.data(), yp.data());
+            ctx.count(std::string("presentation/") + pres);
+            const LD e = fnorm(VecCLD(yp.template cast<CLD>() - VecCLD(z.real().template cast<CLD>())));
+            if (!within(ctx, "complex-shift-forward", e, allow)) viol(ctx, inst, (std::string("perform_op-not-Re[inv(A-sigma*I)*x]/") + pres).c_str(), n, e, allow);
+        });
     }});
 }
 
